@@ -18,6 +18,7 @@ CONSTANTS
   Burst <- NoLimit
   BroadcastDedup = TRUE
   FIX_PruneEmpty = TRUE
+  FIX_Recheck = TRUE
   AllowLate = TRUE
   TrackEvicted = FALSE
   AtomicCheck = FALSE
